@@ -195,6 +195,15 @@ def run_mover(case):
                     m.place_node(op[1], float(Fraction(op[2], op[3])))
                 elif k == 'dir':
                     m.direction = 'v' if op[1] else 'h'
+                elif k == 'setx':
+                    m.posx = tuple(float(Fraction(a, b)) for a, b in op[1])
+                elif k == 'sety':
+                    m.posy = tuple(float(Fraction(a, b)) for a, b in op[1])
+                # the three getters must tell the same story
+                p = m.pos
+                if tuple(p[i][0] for i in range(len(p))) != tuple(m.posx) or \
+                        tuple(p[i][1] for i in range(len(p))) != tuple(m.posy):
+                    code = 98
             except Exception as e:  # noqa
                 code = op_code(e)
             trace.append([code, snap(), ints()])
@@ -268,6 +277,13 @@ def lres(v, printer):
 
 
 def op_term(op):
+    k = op[0]
+    if k in ('setx', 'sety'):
+        return '(%s [%s])' % ('HSetX' if k == 'setx' else 'HSetY', '; '.join(q(Fraction(a, b)) for a, b in op[1]))
+    return '(HOp %s)' % mop_term(op)
+
+
+def mop_term(op):
     k = op[0]
     if k == 'swap':
         return '(Swap %d %d)' % (op[1], op[2])
@@ -463,11 +479,31 @@ def random_history(rng, peer_level, n_ops, v):
     for i, (_, l) in enumerate(peer_level):
         by_level.setdefault(l, []).append(i)
     peer = [p for p, _ in peer_level]       # only approximately tracked: good enough to aim offsets
+    # level index of every node as the pos setter assigns it (never changed by any operation):
+    # 'v': rank of the level coordinate in descending order, 'h': in ascending order
+    lcs = sorted({l for _, l in peer_level}, reverse=v)
+    lidx = [lcs.index(l) for _, l in peer_level]
     ops = []
     for _ in range(n_ops):
         r = rng.random()
         i = rng.randrange(n)
         mates = by_level[peer_level[i][1]]
+        if r < 0.14:
+            # the posx / posy setters.  Level axis ('v': posy, 'h': posx): new, re-spaced level coordinates
+            # that keep the grouping and the order of the levels (posy is sorted descending, posx ascending);
+            # peer axis: arbitrary pairwise different coordinates
+            level_axis = rng.random() < 0.5
+            if level_axis:
+                vals = sorted(rng.sample(range(-3 * GRID, 3 * GRID + 1), len(lcs)), reverse=v)
+                new = [Fraction(vals[lidx[el]], GRID) for el in range(n)]
+                ops.append(['sety' if v else 'setx', [[x.numerator, x.denominator] for x in new]])
+            else:
+                vals = rng.sample(range(-3 * GRID, 3 * GRID + 1), n)
+                new = [Fraction(x, GRID) for x in vals]
+                peer = list(new)
+                ops.append(['setx' if v else 'sety', [[x.numerator, x.denominator] for x in new]])
+            continue
+        r = (r - 0.14) / 0.86
         if r < 0.22:
             j = rng.choice(mates) if rng.random() < 0.75 else rng.randrange(n)
             ops.append(['swap', i, j])
@@ -717,6 +753,8 @@ def shrink(case):
         n = len(case['pos'])
         if n > 1:
             for k in range(n):
+                if any(o[0] in ('setx', 'sety') for o in ops):
+                    break
                 if any(k in o[1:3] and o[0] != 'dir' and (o[0] == 'swap' or o[1] == k) for o in ops):
                     continue
                 c = dict(case)
